@@ -111,6 +111,8 @@ pub struct Program {
     pub spurious: usize,
     /// drop the body after this many polls (None = never)
     pub drop_body_after: Option<usize>,
+    /// 0 = raw writer; 1..9 = gzip writer at that level (`Write` then means `write_all`)
+    pub gz_level: u32,
 }
 
 #[derive(Clone, Debug, PartialEq, Eq)]
@@ -154,10 +156,16 @@ pub fn run_schedule(prog: &Program, prefix: &[usize]) -> RunResult {
         st.at = [At::Running; 2];
         st.grant = [false; 2];
     }
-    let req = http::Request::get("/").body(()).unwrap();
+    let mut rb = http::Request::get("/");
+    if prog.gz_level > 0 {
+        rb = rb.header("accept-encoding", "gzip");
+    }
+    let req = rb.body(()).unwrap();
     let (resp, w) = http_serve::streaming_body(&req)
         .with_chunk_size(prog.cap)
+        .with_gzip_level(prog.gz_level.max(1))
         .build::<Bytes, BoxError>();
+    let gz = prog.gz_level > 0;
     let mut w = w.unwrap();
     let body = resp.into_body();
     let shared = Arc::new(Shared {
@@ -183,6 +191,13 @@ pub fn run_schedule(prog: &Program, prefix: &[usize]) -> RunResult {
                 }
                 let w = w_opt.as_mut().unwrap();
                 let res = match cmd {
+                    PCmd::Write(bs) if gz => match w.write_all(bs) {
+                        Ok(()) => {
+                            sh.accepted.lock().unwrap().extend_from_slice(bs);
+                            "ok".into()
+                        }
+                        Err(_) => "err".into(),
+                    },
                     PCmd::Write(bs) => match w.write(bs) {
                         Ok(n) => {
                             sh.accepted.lock().unwrap().extend_from_slice(&bs[..n]);
@@ -435,9 +450,53 @@ pub fn run_schedule(prog: &Program, prefix: &[usize]) -> RunResult {
     }
 }
 
+/// For a gzip producer: the raw chunker operations its encoder performs, obtained from a
+/// reference encoder run on the same commands. Each `write_all` of the pushed bytes is cut at
+/// chunk boundaries (every piece is accepted whole), so the sequence of critical sections is
+/// the real one (DESIGN section 0, C10).
+fn gz_model_prog(prog: &Program) -> Vec<PCmd> {
+    let mut enc = flate2::GzBuilder::new().write(vec![], flate2::Compression::new(prog.gz_level));
+    let mut out = vec![];
+    let mut fill = 0usize;
+    let mut push = |bytes: &[u8], out: &mut Vec<PCmd>, fill: &mut usize| {
+        let mut rest = bytes;
+        while !rest.is_empty() {
+            let n = (prog.cap - *fill).min(rest.len());
+            out.push(PCmd::Write(rest[..n].to_vec()));
+            *fill = (*fill + n) % prog.cap;
+            rest = &rest[n..];
+        }
+    };
+    for cmd in &prog.prod {
+        let before = enc.get_ref().len();
+        match cmd {
+            PCmd::Write(bs) => {
+                enc.write_all(bs).unwrap();
+                let p = enc.get_ref()[before..].to_vec();
+                push(&p, &mut out, &mut fill);
+            }
+            PCmd::Flush => {
+                enc.flush().unwrap();
+                let p = enc.get_ref()[before..].to_vec();
+                push(&p, &mut out, &mut fill);
+                out.push(PCmd::Flush);
+                fill = 0;
+            }
+            PCmd::Drop => {
+                enc.try_finish().unwrap();
+                let p = enc.get_ref()[before..].to_vec();
+                push(&p, &mut out, &mut fill);
+                out.push(PCmd::Drop);
+            }
+            PCmd::Abort => out.push(PCmd::Abort),
+        }
+    }
+    out
+}
+
 pub fn sched_line(prog: &Program, r: &RunResult) -> String {
-    let prog_s = prog
-        .prod
+    let model_prog = if prog.gz_level > 0 { gz_model_prog(prog) } else { prog.prod.clone() };
+    let prog_s = model_prog
         .iter()
         .map(|c| match c {
             PCmd::Write(b) => format!("W{}", hex(b)),
@@ -458,7 +517,13 @@ pub fn sched_line(prog: &Program, r: &RunResult) -> String {
         })
         .collect::<Vec<_>>()
         .join(",");
-    format!("SCHED cap={} prog={} sched={}", prog.cap, prog_s, sched)
+    format!(
+        "SCHED cap={} prog={} sched={}{}",
+        prog.cap,
+        prog_s,
+        sched,
+        if prog.gz_level > 0 { " gz=1" } else { "" }
+    )
 }
 
 pub fn sched_out(r: &RunResult) -> String {
@@ -474,6 +539,14 @@ pub fn sched_out(r: &RunResult) -> String {
         .collect::<Vec<_>>()
         .join(" ");
     format!("{} results={} stage=done", obs, r.results.join(","))
+}
+
+/// For gzip producers the command results are per `BodyWriter` call, not per chunker write:
+/// only the shared-state trace is compared.
+pub fn sched_out_gz(r: &RunResult) -> String {
+    let s = sched_out(r);
+    let cut = s.find(" results=").unwrap_or(s.len());
+    format!("{} results=* stage=done", &s[..cut])
 }
 
 /// The C10 predicate on one real execution.
@@ -492,7 +565,8 @@ pub fn pred_c10(prog: &Program, r: &RunResult) -> String {
                 return "FAIL:consumer never observed the end or the error".into()
             }
             (Some(t), false) if t == "END" => {
-                if r.delivered != r.accepted {
+                // (for a gzip producer the bytes are compared after decoding, by the caller)
+                if prog.gz_level == 0 && r.delivered != r.accepted {
                     return format!(
                         "FAIL:clean end after {} bytes, {} were accepted",
                         r.delivered.len(),
@@ -503,7 +577,7 @@ pub fn pred_c10(prog: &Program, r: &RunResult) -> String {
             (Some(t), false) if t == "ERR" => return "FAIL:error without abort".into(),
             _ => {}
         }
-        if !r.accepted.starts_with(&r.delivered) {
+        if prog.gz_level == 0 && !r.accepted.starts_with(&r.delivered) {
             return "FAIL:delivered bytes are not a prefix of the accepted bytes".into();
         }
         // bounded number of polls once the writer is gone: queued frames + 1, plus the
